@@ -54,11 +54,24 @@ def r1_optional_fields(R) -> None:
     from fsa.gated import canon, leaves
     from fsa.summ import _subst
     f = Fn(R, q)
+    tables: Dict[str, Dict[str, ast.AST]] = {}
+    for n in f.cfg.nodes:
+        a_ = n.ast
+        if n.kind == 'stmt' and isinstance(a_, (ast.Assign, ast.AnnAssign)) and isinstance(getattr(a_, 'value', None), ast.Dict) and all(isinstance(k_, ast.Constant) for k_ in a_.value.keys):
+            tables[text(a_.targets[0] if isinstance(a_, ast.Assign) else a_.target)] = {k_.value: v_ for k_, v_ in zip(a_.value.keys, a_.value.values)}
+    # the rows may be converted in a helper nested here (`[row_to_symbol(row) for ...]`): the function that builds
+    # `Symbol(**<row>)` is the one to read (tables defined out here are in its scope, if it does not rebind them)
+    builds = lambda fn_: any(is_call(x, 'Symbol') and any(k_.arg is None for k_ in x.keywords) for x in iter_own_nodes(fn_))
+    if not builds(fi.node):
+        nested = [s_ for s_ in fi.node.body if isinstance(s_, ast.FunctionDef) and builds(s_)]
+        if len(nested) == 1:
+            f = Fn(R, f'{q}.<locals>.{nested[0].name}')
+            stored_in = {x.id for x in iter_own_nodes(nested[0]) if isinstance(x, ast.Name) and isinstance(x.ctx, ast.Store)}
+            tables = {k_: v_ for k_, v_ in tables.items() if k_ not in stored_in}
     se = f.symexec()
     row = None
     per_field: Dict[str, ast.AST] = {}
     guards_of_field: Dict[str, list] = {}
-    tables: Dict[str, Dict[str, ast.AST]] = {}
     for n in f.cfg.nodes:
         a_ = n.ast
         if n.kind == 'stmt' and isinstance(a_, (ast.Assign, ast.AnnAssign)) and isinstance(getattr(a_, 'value', None), ast.Dict) and all(isinstance(k_, ast.Constant) for k_ in a_.value.keys):
@@ -90,7 +103,11 @@ def r1_optional_fields(R) -> None:
         for (fld, env) in binds:
             if fld in fields:
                 row = row or rv
-                per_field[fld] = canon(_fold_type_tests(_subst(v, env) if env else v))
+                vv = _subst(v, env) if env else v
+                if env:
+                    # a converter taken from the table is read like a helper called by name
+                    vv = canon(f._inline_pure_calls(vv))
+                per_field[fld] = canon(_fold_type_tests(vv))
                 guards_of_field[fld] = [((_subst(a2, env) if env else a2), tr2) for (a2, tr2) in gfacts]
 
     def own(e: ast.AST, fld: str) -> bool:
@@ -159,6 +176,9 @@ def r1_optional_fields(R) -> None:
                 f'{" / a non-string" if fld not in ("lags", "leads") else ""}) into None: the round trip returns {fld}=nan', where=fi.where)
     # type is restored through the enum
     ok = any(isinstance(n, ast.Assign) and text(n.targets[0]) == "entry['type']" and is_call(n.value, 'Type') for n in ast.walk(fi.node))
+    if not ok and 'type' in per_field:
+        tv = per_field['type']
+        ok = is_call(tv, 'Type') and len(tv.args) == 1 and own(tv.args[0], 'type')
     R.check(ok, q, 'type-restored', 'the type column is converted back to the Type enum', "`entry['type'] = Type(entry['type'])` not found", where=fi.where)
     ok = any(is_call(x, 'Symbol') and has_star_kwargs(x, 'entry') for x in ast.walk(fi.node))
     R.check(ok, q, 'symbol-built', 'each row becomes Symbol(**entry)', 'rows are not rebuilt with Symbol(**entry)', where=fi.where)
